@@ -255,6 +255,13 @@ def rule_offline(ctx, rep):
     eok = pat.block_edge_filter(online_edges)
     rep.must_pass("C04.offline", "qsbr.offline≺wait", f, [f.entry()], waits, lambda i: i in off, include_start=True, edge_ok=eok, what="an online caller goes offline before waiting")
     rep.must_pass("C04.offline", "qsbr.back-online", f, off, None, lambda i: i in on, to_exit=True, edge_ok=eok, what="a caller taken offline is online again on every return path")
+    # typestate, not just order: once the caller has been put back online nothing in rcu_barrier blocks any more - neither the futex wait
+    # nor call_rcu_mutex (whose holder, e.g. call_rcu_before_fork, may itself be waiting for helpers that wait for this reader)
+    blocks = waits + [c for c in f.calls("pthread_mutex_lock")] + [c for c in f.calls("poll")]
+    hit, par = f.reach(on, blocks, avoid=lambda i: i in off)
+    rep.check(hit is None, "C04.offline", "qsbr.blocks-only-offline", "after going back online rcu_barrier reaches no mutex / futex wait",
+              "rcu_barrier blocks (%s) after the caller was put back online: a grace period started by a helper waits for the caller, while the caller waits for that helper (or for the holder of "
+              "call_rcu_mutex that waits for it) - rcu_barrier() never returns" % (hit.callee if hit is not None and hit.op == "call" else "futex wait"), [hit.where()] if hit is not None else [])
 
 
 def rule_fifo(ctx, rep):
